@@ -344,7 +344,8 @@ class C12(Check):
                                     "real_double(eval_double(b)))" % (bits, engine.hexf(d[1]), vals["eval_double"]),
                                     {"recipe": rec, "dump": dump})
             # agreement of the three real evaluators
-            has_exp = '["Pow", ["Constant", "E"]' in json.dumps(dump)
+            # exp(x) = Pow(E, x), also as a Mul factor [E, n]: the visitors call exp(x), the table pow(double(E), x)
+            has_exp = '["Constant", "E"]' in json.dumps(dump)
             names = sorted(vals)
             for i in range(len(names)):
                 for j in range(i):
